@@ -1524,8 +1524,19 @@ class SMTFormula(Formula):
             k: v for k, v in subst_map.items() if k in self.free_variables_
         }
 
+        # `DerivationTree.substitute` ignores the replacement of a tree that also occurs
+        # inside another replacement of the map (e.g., when the map replaces a leaf and
+        # all its parents, as after an expansion step). For a variable that is assigned
+        # that very leaf, the parents' replacements are irrelevant and must not make
+        # the one for the leaf disappear. We thus only pass the relevant entries.
         updated_substitutions: Dict[Variable, DerivationTree] = {
-            var: tree.substitute(tree_subst_map)
+            var: tree.substitute(
+                {
+                    orig: subst
+                    for orig, subst in tree_subst_map.items()
+                    if tree.find_node(orig) is not None
+                }
+            )
             for var, tree in self.substitutions.items()
         }
 
